@@ -66,6 +66,11 @@ static int bytes_eq(const void *a, const void *b, size_t n)
 
 /* flip one bit (pos < 8*n) or none (pos >= 8*n) */
 static void flip(uint8_t *p, unsigned n, unsigned pos) { unsigned i; for (i = 0; i < n; i++) if (pos / 8 == i) p[i] ^= (uint8_t) (1u << (pos % 8)); }
+/* overwrite the Hamming 8/4 byte `by` (loop over constants: no symbolic index) with the clean code word of d */
+static void put_ham8(uint8_t *raw, unsigned n, unsigned by, unsigned d) { unsigned i; for (i = 0; i < n; i++) if (i == by) raw[i] = (uint8_t) ref_ham8(d & 15); }
+/* overwrite triplet t (bytes 1+3t..3+3t) with the clean Hamming 24/18 code word of d */
+static void put_ham24(uint8_t *raw, unsigned t, unsigned d) { unsigned k, w = ref_ham24(d & 0x3FFFF);
+  for (k = 0; k < 13; k++) if (k == t) { raw[1 + 3 * k] = (uint8_t) w; raw[2 + 3 * k] = (uint8_t) (w >> 8); raw[3 + 3 * k] = (uint8_t) (w >> 16); } }
 /* is byte a Hamming 8/4 code word */
 static int is_ham8(unsigned c) { unsigned d; int r = 0; for (d = 0; d < 16; d++) r |= (ref_ham8(d) == (c & 0xFF)); return r; }
 
@@ -126,10 +131,11 @@ V_HARNESS(h_mot)
   V_INIT();
   memset(&MAG, 0, sizeof MAG); memset(&MAG2, 0, sizeof MAG2);   /* parse_mot never reads the magazine: concrete initial state loses nothing */
   in_bytes(raw, 40); packet = in_u8() & 31; pos = in_u16();
+  V_ASSUME(pos < 320);
+  put_ham8(raw, 40, pos / 8, in_u8());          /* the byte that will be hit is a code word; all others arbitrary */
   memcpy(r2, raw, 40);
   FOR_CONCRETE(k, 0, 31, packet, parse_mot(&MAG, raw, k));
   /* C03: if the flipped byte was a code word, the single error is corrected: identical magazine state */
-  V_ASSUME(pos < 320 && is_ham8(raw[pos / 8]));
   flip(r2, 40, pos);
   FOR_CONCRETE(k, 0, 31, packet, parse_mot(&MAG2, r2, k));
   V_ASSERT(bytes_eq(&MAG, &MAG2, sizeof MAG), "mot_single_error_same_state");
@@ -141,22 +147,22 @@ static cache_page CP, CP2;
 
 V_HARNESS(h_pop)
 {
-  uint8_t raw[40], r2[40]; int packet; unsigned pos; vbi_bool a, b;
+  uint8_t raw[40], r2[40]; int packet; unsigned pos, d; vbi_bool a, b;
   V_INIT();
   memset(&CP, 0, sizeof CP); memset(&CP2, 0, sizeof CP2);       /* parse_pop only writes */
-  in_bytes(raw, 40); packet = in_u8() & 31; pos = in_u16();
+  in_bytes(raw, 40); packet = in_u8() & 31; pos = in_u16(); d = in_u32();
   V_ASSUME(packet >= 1 && packet <= 26);
+  V_ASSUME(pos < 320);
+  /* the unit (designation byte or triplet) that will be hit is error free; every other byte is arbitrary */
+  if (pos / 8 == 0) put_ham8(raw, 1, 0, d); else put_ham24(raw, (pos / 8 - 1) / 3, d);
   memcpy(r2, raw, 40);
   FOR_CONCRETE(k, 1, 26, packet, a = parse_pop(&CP, raw, k));
-  V_ASSUME(pos < 320);
   flip(r2, 40, pos);
   FOR_CONCRETE(k, 1, 26, packet, b = parse_pop(&CP2, r2, k));
-  /* single error in a byte/triplet that was error free is corrected */
-  { unsigned by = pos / 8; int clean;
-    if (by == 0) clean = is_ham8(raw[0]);
-    else { unsigned t = (by - 1) / 3; uint8_t z[3]; int v; z[0] = raw[1 + 3 * t]; z[1] = raw[2 + 3 * t]; z[2] = raw[3 + 3 * t];
-      v = vbi_unham24p(z); clean = (v >= 0) && (ref_ham24((unsigned) v) == ((unsigned) z[0] | ((unsigned) z[1] << 8) | ((unsigned) z[2] << 16))); }
-    if (clean) { V_ASSERT(a == b, "pop_single_error_same_result"); V_ASSERT(bytes_eq(&CP, &CP2, sizeof CP), "pop_single_error_same_state"); V_REACH("clean"); } }
+  /* C03: the single error is corrected: same result, same page */
+  V_ASSERT(a == b, "pop_single_error_same_result");
+  V_ASSERT(bytes_eq(&CP, &CP2, sizeof CP), "pop_single_error_same_state");
+  if (a) V_REACH("clean");
   V_END();
 }
 
@@ -165,23 +171,21 @@ static vbi_decoder VBI;
 
 V_HARNESS(h_27)
 {
-  uint8_t raw[40], r2[40]; unsigned pos, mag0; vbi_bool a, b; int des;
+  uint8_t raw[40], r2[40]; unsigned pos, mag0, d, des; vbi_bool a, b;
   V_INIT();
   memset(&CP, 0, sizeof CP); memset(&CP2, 0, sizeof CP2);       /* parse_27 reads only cvtp->function (LOP here; DISCARD returns at once) */
-  in_bytes(raw, 40); pos = in_u16(); mag0 = in_u8() & 7;
-  memcpy(r2, raw, 40);
-  des = ref_unham8(raw[0]);
-  a = parse_27(&VBI, raw, &CP, (int) mag0);
+  in_bytes(raw, 40); pos = in_u16(); mag0 = in_u8() & 7; d = in_u32(); des = in_u8() & 15;
   V_ASSUME(pos < 8 * 38);                     /* bytes 0..37 are protected; 38/39 is the (ignored) CRC */
+  raw[0] = (uint8_t) ref_ham8(des);           /* clean designation code (an error in it is injected below like anywhere else) */
+  /* the protected unit that will be hit is error free; everything else arbitrary */
+  if (pos / 8 >= 1) { if (des <= 3) put_ham8(raw, 40, pos / 8, d); else if (des <= 5 && pos / 8 <= 36) put_ham24(raw, (pos / 8 - 1) / 3, d); }
+  memcpy(r2, raw, 40);
+  a = parse_27(&VBI, raw, &CP, (int) mag0);
   flip(r2, 40, pos);
   b = parse_27(&VBI, r2, &CP2, (int) mag0);
-  { unsigned by = pos / 8; int clean = 0;
-    if (by == 0) clean = is_ham8(raw[0]);
-    else if (des >= 0 && des <= 3) clean = is_ham8(raw[by]);
-    else if (des == 4 || des == 5) { if (by <= 36) { unsigned t = (by - 1) / 3; uint8_t z[3]; int v; z[0] = raw[1 + 3 * t]; z[1] = raw[2 + 3 * t]; z[2] = raw[3 + 3 * t];
-        v = vbi_unham24p(z); clean = (v >= 0) && (ref_ham24((unsigned) v) == ((unsigned) z[0] | ((unsigned) z[1] << 8) | ((unsigned) z[2] << 16))); } else clean = 1; }
-    else clean = 1;
-    if (clean && is_ham8(raw[0])) { V_ASSERT(a == b, "x27_single_error_same_result"); V_ASSERT(bytes_eq(&CP, &CP2, sizeof CP), "x27_single_error_same_state"); V_REACH("clean"); } }
+  V_ASSERT(a == b, "x27_single_error_same_result");
+  V_ASSERT(bytes_eq(&CP, &CP2, sizeof CP), "x27_single_error_same_state");
+  if (a && des <= 5) V_REACH("clean");
   V_END();
 }
 
@@ -213,10 +217,11 @@ V_HARNESS(h_ait)
   V_INIT();
   memset(&CP, 0, sizeof CP); memset(&CP2, 0, sizeof CP2);
   in_bytes(raw, 40); packet = in_u8() & 31; pos = in_u16();
+  /* links (bytes 0..7, 20..27) are Hamming 8/4: single error corrected */
+  V_ASSUME(pos < 320 && ((pos / 8) < 8 || ((pos / 8) >= 20 && (pos / 8) < 28)));
+  put_ham8(raw, 40, pos / 8, in_u8());
   memcpy(r2, raw, 40);
   FOR_CONCRETE(k, 0, 31, packet, parse_ait(&CP, raw, k));
-  /* links (bytes 0..7, 20..27) are Hamming 8/4: single error corrected */
-  V_ASSUME(pos < 320 && ((pos / 8) < 8 || ((pos / 8) >= 20 && (pos / 8) < 28)) && is_ham8(raw[pos / 8]));
   flip(r2, 40, pos);
   FOR_CONCRETE(k, 0, 31, packet, parse_ait(&CP2, r2, k));
   V_ASSERT(bytes_eq(&CP, &CP2, sizeof CP), "ait_single_error_same_state");
@@ -237,7 +242,11 @@ V_HARNESS(h_lop_parity)
   /* newly received rows */
   in_bytes(&RP.lop_raw[0][0], sizeof RP.lop_raw);
   RP.lop_packets = in_u32() & 0x3FFFFFF;
+#ifdef ROWSEL    /* observed row enumerated by the runner: a symbolic row index into the page union gave a counterexample that does not replay (cbmc artefact) */
+  row = ROWSEL; (void) in_u8();
+#else
   row = 1 + (in_u8() % 25);
+#endif
   lop_parity_check(&CP, &RP);
   /* observed at one arbitrary row 1..25 */
   for (i = 0; i < 40; i++) bad |= !ref_odd_parity(RP.lop_raw[row][i]);
@@ -341,26 +350,24 @@ V_HARNESS(h_2829)
   in_bytes(&CN._magazines[mag8 - 1].extension, sizeof CN._magazines[0].extension);
   CP2 = CP; m1 = CN._magazines[mag8 - 1].extension;
   in_bytes(raw, 40); pos = in_u16(); pk = 28 + (in_u8() & 1);
+  { unsigned d = in_u32(), des = in_u8() & 15;
+    V_ASSUME(pos < 320);
+    raw[0] = (uint8_t) ref_ham8(des);
+    if (pos / 8 >= 1) put_ham24(raw, (pos / 8 - 1) / 3, d); }
   memcpy(r2, raw, 40);
   a = parse_28_29(&VBI, raw, &CP, mag8, pk);
   e1 = CP.data.ext_lop.ext; m2 = CN._magazines[mag8 - 1].extension;
-  /* second run from the same state with one bit flipped in a byte/triplet that was error free */
+  /* second run from the same state with one bit flipped in the byte/triplet that was error free */
   CN._magazines[mag8 - 1].extension = m1;
-  V_ASSUME(pos < 320);
   flip(r2, 40, pos);
   b = parse_28_29(&VBI, r2, &CP2, mag8, pk);
   e2 = CP2.data.ext_lop.ext;
-  { unsigned by = pos / 8; int clean;
-    if (by == 0) clean = is_ham8(raw[0]);
-    else { unsigned t = (by - 1) / 3; uint8_t z[3]; int v; z[0] = raw[1 + 3 * t]; z[1] = raw[2 + 3 * t]; z[2] = raw[3 + 3 * t];
-      v = vbi_unham24p(z); clean = (v >= 0) && (ref_ham24((unsigned) v) == ((unsigned) z[0] | ((unsigned) z[1] << 8) | ((unsigned) z[2] << 16))); }
-    if (clean && is_ham8(raw[0])) {
-      V_ASSERT(a == b, "x28_single_error_same_result");
-      V_ASSERT(CP.function == CP2.function && CP.x28_designations == CP2.x28_designations, "x28_single_error_same_page_state");
-      V_ASSERT(bytes_eq(&e1, &e2, sizeof e1), "x28_single_error_same_page_extension");
-      V_ASSERT(bytes_eq(&m2, &CN._magazines[mag8 - 1].extension, sizeof m2), "x28_single_error_same_magazine_extension");
-      V_ASSERT(bytes_eq(CP.data.drcs.mode, CP2.data.drcs.mode, sizeof CP.data.drcs.mode), "x28_single_error_same_drcs_modes");
-      V_REACH("clean"); } }
+  V_ASSERT(a == b, "x28_single_error_same_result");
+  V_ASSERT(CP.function == CP2.function && CP.x28_designations == CP2.x28_designations, "x28_single_error_same_page_state");
+  V_ASSERT(bytes_eq(&e1, &e2, sizeof e1), "x28_single_error_same_page_extension");
+  V_ASSERT(bytes_eq(&m2, &CN._magazines[mag8 - 1].extension, sizeof m2), "x28_single_error_same_magazine_extension");
+  V_ASSERT(bytes_eq(CP.data.drcs.mode, CP2.data.drcs.mode, sizeof CP.data.drcs.mode), "x28_single_error_same_drcs_modes");
+  V_REACH("clean");
   V_END();
 }
 
@@ -449,6 +456,12 @@ V_HARNESS(h_ttx_header)
   ttx_state_init();
   in_bytes(buf + 2, 40);
   buf[0] = ref_ham8(pmag & 15); buf[1] = ref_ham8(pmag >> 4);
+#ifdef PAGEN   /* page number concrete (runner grid): keeps the page-function classification and the statistics slot concrete */
+  buf[2] = ref_ham8((PAGEN) & 15); buf[3] = ref_ham8(((PAGEN) >> 4) & 15);
+#ifdef PAGEBAD /* two bit errors in one page number byte: uncorrectable */
+  buf[2 + ((PAGEBAD) & 1)] ^= 0x41;
+#endif
+#endif
   rv->page->function = PAGE_FUNCTION_LOP; rv->page->pgno = mag8 * 256 + 0x99; rv->page->subno = 0x3F7F;
   for (i = 0; i < 8; i++) { n[i] = ref_unham8(buf[2 + i]); if (n[i] < 0) err = 1; }
   hi_err = (n[0] < 0 || n[1] < 0);
@@ -472,6 +485,53 @@ V_HARNESS(h_ttx_header)
       V_ASSERT(VBI.vt.current == rv, "hdr_becomes_current");
       V_REACH("clean");
     }
+  }
+  V_END();
+}
+
+/* =============== row parity gate with X/26 enhancement data (C03: "positions overridden by X/26 enhancement data excepted") =============== */
+/* Reference (EN 300 706 12.3): row address triplets (address 40..63) in modes "full row colour" (0x01) and "set active
+   position" (0x04) move the active row to address-40 (0 means 24), mode 0x07 to row 0; column triplets (address < 40)
+   that place a character override the Level 1 character at (active row, address).  Only there may a received byte
+   have even parity and the row still be taken. */
+#ifndef ROWSEL
+#define ROWSEL_X 5
+#else
+#define ROWSEL_X ROWSEL
+#endif
+#define NX26 3
+V_HARNESS(h_lop_parity_x26)
+{
+  unsigned i, t, arow = 0; int overridden[40]; int blocked = 0;
+  V_INIT();
+  memset(&CP, 0, sizeof CP); 
+  in_bytes(CP.data.lop.raw[ROWSEL_X], 40);
+  CP.lop_packets = in_u32() & 0x3FFFFFF; CP.x26_designations = 1;
+  memset(CP.data.enh_lop.enh, 0xFF, sizeof CP.data.enh_lop.enh);       /* unused triplets: address 0xFF terminates */
+  for (t = 0; t < NX26; t++) { CP.data.enh_lop.enh[t].address = in_u8() & 63; CP.data.enh_lop.enh[t].mode = in_u8() & 31; CP.data.enh_lop.enh[t].data = in_u8() & 127; }
+  CP2 = CP;
+  in_bytes(RP.lop_raw[ROWSEL_X], 40);
+  RP.lop_packets = 1u << ROWSEL_X;
+  for (i = 0; i < 40; i++) overridden[i] = 0;
+  for (t = 0; t < NX26; t++) {
+    unsigned a = CP.data.enh_lop.enh[t].address, m = CP.data.enh_lop.enh[t].mode;
+    if (a < 40) {
+      int places_char = (m == 0x01 || m == 0x02 || m == 0x0B || m == 0x09 || m == 0x0D || m == 0x0F || m >= 0x10 || m == 0x08 /* tolerated, see DESIGN */);
+      if (places_char && arow == ROWSEL_X) for (i = 0; i < 40; i++) if (i == a) overridden[i] = 1;
+    } else {
+      if (m == 0x01 || m == 0x04) { arow = a - 40; if (arow == 0) arow = 24; }
+      else if (m == 0x07) arow = 0;
+    }
+  }
+  for (i = 0; i < 40; i++) if (!ref_odd_parity(RP.lop_raw[ROWSEL_X][i]) && !overridden[i]) blocked = 1;
+  lop_parity_check(&CP, &RP);
+  if (blocked) {
+    V_ASSERT(bytes_eq(CP.data.lop.raw[ROWSEL_X], CP2.data.lop.raw[ROWSEL_X], 40), "x26_gate_bad_row_never_replaces");
+    V_ASSERT(CP.lop_packets == CP2.lop_packets, "x26_gate_bad_row_not_marked");
+    V_REACH("blocked");
+  } else {
+    for (i = 0; i < 40; i++) if (!overridden[i]) V_ASSERT(CP.data.lop.raw[ROWSEL_X][i] == RP.lop_raw[ROWSEL_X][i], "x26_gate_good_bytes_copied_exactly");
+    V_REACH("taken");
   }
   V_END();
 }
